@@ -33,7 +33,7 @@ FLOORS = {"quick": {"events": 60000, "new_acks": 20000, "dup_acks": 10000, "fast
                        "timeouts": 40000, "slow_start_acks": 100000, "cong_avoid_acks": 100000, "deflations": 20000,
                        "short_dup_runs": 16000, "new_segments_checked": 400000, "guard_tight": 60000,
                        "cubic_cases": 4000, "reno_cases": 4000, "multi_segment_acks": 60000, "rtt_above_rto": 10000}}
-KEYS = tuple(FLOORS["quick"].keys()) + ("candidate_forks", "simultaneous_timeouts", "app_paced_cases", "windows_beyond_65535")
+KEYS = tuple(FLOORS["quick"].keys()) + ("candidate_forks", "simultaneous_timeouts", "app_paced_cases", "windows_beyond_65535", "sync_acks_inside_fast_retransmit", "finite_finish_time_cases", "timeouts_after_finish_time")
 MSS = 512
 
 
@@ -54,7 +54,8 @@ def gen_case(rng, i):
         if r < 0.55:
             ev.append(["ack", rng.choice([1, 1, 1, 2, 3, 8]), rng.choice([0.01, 0.05, 0.1, 0.3, 1.0, 2.5, 6.0, 0.0, 1e-5, 3e-5])])
         elif r < 0.8:
-            ev.append(["dup", rng.choice([1, 2, 3, 3, 4, 5, 8, 8, 40, 100, 150] if big else [1, 2, 3, 3, 4, 5, 8])])
+            ev.append(["dup", rng.choice([1, 2, 3, 3, 4, 5, 8, 8, 40, 100, 150] if big else [1, 2, 3, 3, 4, 5, 8])]
+                      + ([[rng.choice([1, 1, 2, 8]), rng.choice([0.01, 0.1, 0.3])]] if rng.random() < 0.15 else []))
         else:
             ev.append(["wait", rng.choice([0.05, 0.5, 1.0, 2.0, 4.5, 9.0, 30.0])])
     if cubic and i % 2 == 0:
@@ -74,6 +75,8 @@ def gen_case(rng, i):
         # window edge last_ack + cwnd passes many segment boundaries (a rounded edge admits a segment early)
         case["cwnd0"], case["ssthresh0"], case["segments"] = rng.choice([1024, 2048, 5000]), rng.choice([512, 1024]), None
         case["events"] = [["ack", rng.choice([1, 1, 1, 2]), rng.choice([0.01, 0.05, 0.1])] for _ in range(rng.randint(300, 900))]
+    if i % 9 == 2:
+        case["finish"] = rng.choice([0.5, 2.0, 5.0, 12.0])
     if i % 5 == 3:
         # an application-paced flow: data becomes available in chunks, the sender is application limited
         case["app"] = {"gap": rng.choice([0.5, 1.0, 3.0]), "chunk": rng.choice([512, 1024, 2048])}
@@ -207,7 +210,10 @@ def run_case(case, stats):
                     arrival_dist=lambda: g, size_dist=lambda: ch)
         stats["app_paced_cases"] += 1
     else:
-        flow = Flow(flow_id=1, src="s", dst="d", start_time=0, finish_time=float("inf"), size=size)
+        # (a finite finish time ends the sending of *new* data; what is in flight is still retransmitted on timeout)
+        flow = Flow(flow_id=1, src="s", dst="d", start_time=0, finish_time=case.get("finish", float("inf")), size=size)
+        if "finish" in case:
+            stats["finite_finish_time_cases"] += 1
     if case["cc"] == "TCPReno":
         cc = TCPReno(mss=MSS, cwnd=case["cwnd0"], ssthresh=case["ssthresh0"])
         stats["reno_cases"] += 1
@@ -256,8 +262,53 @@ def run_case(case, stats):
                 txlog.append((now, seq, "new"))
             else:
                 txlog.append((now, seq, "retx"))
+                if state.get("sync_ack") is not None:
+                    # the peer answers the fast retransmission at once, from inside its own put(): the new ACK
+                    # enters the sender while the third duplicate is still being handled
+                    k, rtt = state.pop("sync_ack")
+                    state["sync_ack"] = None
+                    w0 = worlds[0]
+                    outstanding = (w0.next_seq - w0.last_ack) // MSS
+                    k = max(1, min(k, outstanding))
+                    ackno = w0.last_ack + k * MSS
+                    a = Packet(now - rtt, 40, ackno - MSS, flow_id=10001)
+                    a.ack = ackno
+                    stats["new_acks"] += 1
+                    stats["sync_acks_inside_fast_retransmit"] += 1
+                    ref_new_ack(ackno, rtt)
+                    sender.put(a)
 
     sender.out = Tap()
+
+    def ref_new_ack(ackno, rtt):
+        """the reference sender's reaction to a new cumulative ACK (every admissible world)"""
+        new = []
+        for w in worlds:
+            alts = []
+            if w.dup >= 3:
+                w.cwnd = w.ssthresh
+                stats["deflations"] += 1
+                alts = [w]
+            elif w.dup > 0:
+                stats["short_dup_runs"] += 1
+                stats["candidate_forks"] += 1
+                v = w.copy()
+                v.cwnd = v.ssthresh
+                alts = [w, v]
+            else:
+                alts = [w]
+            for x in alts:
+                x.dup = 0
+                err = rtt - x.srtt
+                x.srtt += 0.125 * err
+                x.rttvar += 0.25 * (abs(err) - x.rttvar)
+                x.rto = x.srtt + 4 * x.rttvar
+                x.last_ack = ackno
+                x.on_new_ack_cc(rtt, env.now, stats)
+                new.append(x)
+        worlds[:] = new
+        for s in [s for s in arm if s < ackno]:
+            del arm[s]
 
     def settle():
         while env.peek() <= env.now:
@@ -308,33 +359,7 @@ def run_case(case, stats):
                 a = Packet(env.now - rtt, 40, ackno - MSS, flow_id=10001)
                 a.ack = ackno
                 stats["new_acks"] += 1
-                new = []
-                for w in worlds:
-                    alts = []
-                    if w.dup >= 3:
-                        w.cwnd = w.ssthresh
-                        stats["deflations"] += 1
-                        alts = [w]
-                    elif w.dup > 0:
-                        stats["short_dup_runs"] += 1
-                        stats["candidate_forks"] += 1
-                        v = w.copy()
-                        v.cwnd = v.ssthresh
-                        alts = [w, v]
-                    else:
-                        alts = [w]
-                    for x in alts:
-                        x.dup = 0
-                        err = rtt - x.srtt
-                        x.srtt += 0.125 * err
-                        x.rttvar += 0.25 * (abs(err) - x.rttvar)
-                        x.rto = x.srtt + 4 * x.rttvar
-                        x.last_ack = ackno
-                        x.on_new_ack_cc(rtt, env.now, stats)
-                        new.append(x)
-                worlds[:] = new
-                for s in [s for s in arm if s < ackno]:
-                    del arm[s]
+                ref_new_ack(ackno, rtt)
                 n0 = len(txlog)
                 sender.put(a)          # the reference has been stepped first: the tap sees the new window
                 settle()
@@ -359,25 +384,32 @@ def run_case(case, stats):
                         elif w.dup > 3:
                             w.cwnd += MSS
                     n0 = len(txlog)
+                    d = worlds[0].dup
+                    missing = worlds[0].last_ack
+                    sync = len(evn) > 2 and d == 3
+                    if sync:
+                        state["sync_ack"] = tuple(evn[2])
                     sender.put(a)
+                    state["sync_ack"] = None
                     settle()
                     retx = [t for t in txlog[n0:] if t[2] == "retx"]
-                    d = worlds[0].dup
                     if d == 3:
                         stats["fast_retransmits"] += 1
-                        if [t[1] for t in retx] != [worlds[0].last_ack]:
+                        if [t[1] for t in retx] != [missing]:
                             bad("third-duplicate-did-not-retransmit-missing-segment",
                                 "the third duplicate ACK must retransmit exactly the missing segment",
-                                {"retransmitted": [t[1] for t in retx], "missing": worlds[0].last_ack})
+                                {"retransmitted": [t[1] for t in retx], "missing": missing})
                     elif d < 3 and retx:
                         bad("retransmission-before-third-duplicate", "a segment was retransmitted after fewer than three duplicate ACKs",
                             {"dup": d, "retransmitted": [t[1] for t in retx]})
-                    elif d > 3 and any(t[1] != worlds[0].last_ack for t in retx):
+                    elif d > 3 and any(t[1] != missing for t in retx):
                         bad("wrong-segment-retransmitted-on-duplicate", "a further duplicate retransmitted a segment other than the missing one", None)
                     if any(t[2] == "new" for t in txlog[n0:]):
                         pass          # allowed if inside the (inflated) window: checked at the tap
-                    if not compare(f"dup-ack"):
+                    if not compare("dup-ack" if not sync else "third-dup-ack-answered-synchronously"):
                         break
+                    if sync:
+                        break                 # the duplicate run has ended with the new ACK
             else:
                 # wait: let retransmission timers expire, one expiry instant at a time (new segments sent
                 # meanwhile -- an application-paced flow -- arm new timers: the next expiry is recomputed then)
@@ -411,6 +443,8 @@ def run_case(case, stats):
                     vals = []
                     for s in expired:
                         stats["timeouts"] += 1
+                        if env.now >= case.get("finish", float("inf")):
+                            stats["timeouts_after_finish_time"] += 1
                         for w in worlds:
                             w.on_timeout_cc()
                             w.rto *= 2
